@@ -1735,6 +1735,7 @@ class Comparator(BinaryOperator):
     right: CanBehaveLikeAVariable
     operation: Callable[[Any, Any], bool]
     _invert__: bool = field(init=False, default=False)
+    _evaluations_in_progress_: int = field(init=False, default=0, repr=False)
     operation_name_map: ClassVar[Dict[Any, str]] = {operator.eq: "==",
                                                     operator.ne: "!=",
                                                     operator.lt: "<",
@@ -1784,7 +1785,13 @@ class Comparator(BinaryOperator):
          only two values, the left and right symbolic values.
         """
         sources = sources or {}
-        self._want_false_results_(yield_when_false)
+        # the same comparison object may occur twice in one condition, once where false results are wanted and once where
+        # they are not: the inner occurrence is entered while the evaluation of the outer one is suspended and still
+        # filing its results. It then leaves the caches alone (neither empties, consults nor fills them).
+        entered_while_suspended = (self._evaluations_in_progress_ > 0 and self._cached_with_false_results_ is not None
+                                   and self._cached_with_false_results_ != bool(yield_when_false))
+        if not entered_while_suspended:
+            self._want_false_results_(yield_when_false)
 
         if self._id_ in sources:
             # already decided under this binding (the same comparison object occurs twice in the condition): it is the
@@ -1794,9 +1801,17 @@ class Comparator(BinaryOperator):
                 yield sources
             return
 
+        self._evaluations_in_progress_ += 1
+        try:
+            yield from self._compare_operands_(sources, yield_when_false, use_cache=not entered_while_suspended)
+        finally:
+            self._evaluations_in_progress_ -= 1
+
+    def _compare_operands_(self, sources: Dict[int, HashedValue], yield_when_false: bool, use_cache: bool) \
+            -> Iterable[Dict[int, HashedValue]]:
         # a concatenation is one value for ALL bindings of its variables (which it binds to the lists of their values):
         # a result that contains one cannot be filed under, or answered for, a binding of those variables.
-        use_cache = is_caching_enabled() and not self._compares_a_concatenation_
+        use_cache = use_cache and is_caching_enabled() and not self._compares_a_concatenation_
         if use_cache:
             if self._cache_.check(sources):
                 yield from self.yield_final_output_from_cache(sources)
